@@ -30,6 +30,9 @@ SCRIPTS = [
     # a value that one script declares (comparator-*) and uses in a restricted-value slot, and another script that uses it undeclared
     'require "comparator-i;ascii-numeric";\nif header :comparator "i;ascii-numeric" "a" "b" { keep; }\nif header :comparator "i;octet" "a" "b" { keep; }\n',
     'if header :comparator "i;ascii-numeric" "a" "b" { keep; }',
+    # a str that cannot be encoded as UTF-8 (lone surrogate, e.g. from surrogateescape file reading): whatever parse() does with it,
+    # it does the same on a fresh and on a reused parser
+    'keep;\n# \udce9\nstop;\n',
 ]
 FS_OPS = [
     ("add-plain", [("Subject", ":is", "x")], [("fileinto", "B")]),
